@@ -1,6 +1,7 @@
 package sim
 
 import (
+	"strings"
 	"encoding/json"
 	"flag"
 	"fmt"
@@ -69,6 +70,28 @@ func WorkerMain(t *testing.T) {
 		return
 	}
 	out := &WorkerOut{Profile: *flagProfile, Faults: map[string]int{}, Probes: map[string]int{}, Shapes: map[string]int{}, Notes: map[string]int{}}
+	wstart := time.Now()
+	hangHandler = func(prog *Program, tapeSeed int64, sig, text string, library bool) {
+		// the run never ended: report what there is and leave
+		hres := &Result{Seed: prog.Seed, Prog: prog, Shape: "hang"}
+		hres.Stats.Faults, hres.Stats.Probes = map[string]int{}, map[string]int{}
+		if library {
+			hres.Viols = []Violation{{Prop: "C05", Sig: sig, Text: text, RPC: -1}}
+			hres.TapeSeed = tapeSeed
+			out.Failures = append(out.Failures, hres)
+		} else {
+			out.Fatal = append(out.Fatal, fmt.Sprintf("seed %d: run wedged without a library goroutine to blame (harness trouble):\n%s", prog.Seed, text))
+		}
+		out.Runs++
+		out.WallS = time.Since(wstart).Seconds()
+		for k := range out.Shapes {
+			out.ShapeList = append(out.ShapeList, k)
+		}
+		b, _ := json.Marshal(out)
+		if *flagOut != "" {
+			os.WriteFile(*flagOut, b, 0o644)
+		}
+	}
 	if *flagHashes {
 		out.Hashes = map[string]string{}
 	}
@@ -168,6 +191,79 @@ func nontrivial(prop string, res *Result) bool {
 // budget (real-time sub-checks).
 var profileRunCap = map[string]int{"c04gc": 24}
 
+// hangTimeout is the real time a single run may take. A run normally lasts
+// milliseconds; the scheduler sees every deadlock that parks in the kernel or
+// blocks durably. What it cannot see is a goroutine that spins, or blocks on
+// something the bubble does not consider durable (a sync.Mutex taken without a
+// schedule point, a system call): then quiescence is never reached and the run
+// never ends. The watchdog runs outside the bubble on the real clock.
+var hangTimeout = func() time.Duration {
+	if v := os.Getenv("VERIF_HANG_S"); v != "" {
+		if d, err := time.ParseDuration(v + "s"); err == nil && d > 0 {
+			return d
+		}
+	}
+	return 60 * time.Second
+}()
+
+// hangVerdict inspects all goroutine stacks of a wedged process: a goroutine
+// with a library frame that is not parked in the kernel and not blocked in a
+// way the bubble understands is the culprit.
+func hangVerdict() (sig, text string, library bool) {
+	buf := make([]byte, 4<<20)
+	buf = buf[:runtime.Stack(buf, true)]
+	var culprit string
+	for _, g := range strings.Split(string(buf), "\n\n") {
+		if !strings.Contains(g, "github.com/fullstorydev/grpchan/") {
+			continue
+		}
+		hdr := g
+		if i := strings.IndexByte(g, '\n'); i >= 0 {
+			hdr = g[:i]
+		}
+		if strings.Contains(g, "simrt.(*Kernel).park") || strings.Contains(hdr, "(durable)") {
+			continue // waiting for the scheduler, or blocked where the bubble can see it
+		}
+		lib := false
+		for _, line := range strings.Split(g, "\n") {
+			if strings.HasPrefix(line, "github.com/fullstorydev/grpchan/") && !strings.HasPrefix(line, "github.com/fullstorydev/grpchan/simrt.") {
+				lib = true
+				break
+			}
+		}
+		if lib && (strings.Contains(hdr, "running") || strings.Contains(hdr, "runnable") || strings.Contains(hdr, "sync.Mutex") || strings.Contains(hdr, "sync.RWMutex") || strings.Contains(hdr, "semacquire") || strings.Contains(hdr, "sync.WaitGroup") || strings.Contains(hdr, "sync.Cond")) {
+			culprit = g
+			break
+		}
+	}
+	if culprit == "" {
+		return "", trunc(string(buf), 6000), false
+	}
+	site := leakSite(culprit)
+	if len(culprit) > 2500 {
+		culprit = culprit[:2500]
+	}
+	return "C05|hang|" + site, "the run did not finish within " + hangTimeout.String() + " of real time: a goroutine is spinning or blocked inside the library where no schedule point, channel operation or timer can release it (livelock, or a lock that is never released):\n" + culprit, true
+}
+
+// armWatchdog returns a stop function. onHang is given the verdict; it must
+// not return (the bubble is wedged).
+func armWatchdog(prog *Program, tape *Tape) func() {
+	t := time.AfterFunc(hangTimeout, func() {
+		sig, text, lib := hangVerdict()
+		if hangHandler != nil {
+			hangHandler(prog, tape.Seed, sig, text, lib)
+		} else {
+			fmt.Printf("run wedged: %s\n%s\n", sig, text)
+		}
+		os.Exit(0)
+	})
+	return func() { t.Stop() }
+}
+
+// hangHandler is told about a run that never ended; the process exits afterwards.
+var hangHandler func(prog *Program, tapeSeed int64, sig, text string, library bool)
+
 // specialWorkers are profiles that are not "generate a program, run it":
 // complete enumerations and the like. They fill the WorkerOut themselves.
 var specialWorkers = map[string]func(t *testing.T, out *WorkerOut){}
@@ -180,6 +276,7 @@ type ReplayFile struct {
 	Seed      int64      `json:"seed"`
 	Program   *Program   `json:"program"`
 	Tape      []int      `json:"tape"`
+	TapeSeed  int64      `json:"tape_seed,omitempty"` // if set (and tape empty): the schedule is the seeded search tape itself (used when a run never finished)
 	Trace     []string   `json:"trace,omitempty"`
 	History   []string   `json:"history,omitempty"`
 	TreeHash  string     `json:"tree_hash,omitempty"`
@@ -219,7 +316,20 @@ func replayMain(t *testing.T) {
 		fmt.Printf("tapes=%d signatures=%v\n", *flagTapes, seen)
 		return
 	}
-	res := RunOne(t, rf.Program, NewReplayTape(rf.Tape), true)
+	tape := NewReplayTape(rf.Tape)
+	if rf.TapeSeed != 0 && len(rf.Tape) == 0 {
+		tape = NewSearchTape(rf.TapeSeed)
+	}
+	hangHandler = func(_ *Program, _ int64, sig, text string, library bool) {
+		fmt.Printf("VIOL C05 %s\n     %s\n", sig, text)
+		if library && sig == rf.Signature {
+			fmt.Printf("REPRODUCED property=%s signature=%s\n", rf.Property, rf.Signature)
+		} else {
+			fmt.Printf("NOT-REPRODUCED property=%s signature=%s (the run wedged: %s)\n", rf.Property, rf.Signature, sig)
+		}
+		os.Stdout.Sync()
+	}
+	res := RunOne(t, rf.Program, tape, true)
 	res.HistText = res.histText()
 	if *flagTrace {
 		for _, l := range res.Trace {
